@@ -7,7 +7,7 @@ children and threads only contain what scrapli created.
   c11_fakedev.py ssh-server     CTL        loopback asyncssh server; prints its port on stdout
 
 Per session the behaviour is read from the JSON control file CTL (env C11_CTL for ssh-tty):
-  {"neg": n, "partial": bool, "die_after": k|null, "silent_after": k|null, "login": bool}
+  {"neg": n, "partial": bool, "die_after": k|null, "silent_after": k|null, "hangup": seconds|null (ssh-tty: close the tty, exit later)}
 die_after / silent_after count received lines of the session."""
 import json, os, sys, time
 
@@ -63,6 +63,15 @@ def ssh_tty():
             return
         what = c.line()
         if what == "die":
+            if c.c.get("hangup"):
+                # hang up the terminal (the peer's next read sees EOF) but linger for a while before exiting
+                for fd in (0, 1, 2):
+                    try:
+                        os.close(fd)
+                    except OSError:
+                        pass
+                time.sleep(float(c.c["hangup"]))
+                os._exit(0)
             return
         if what == "silent":
             time.sleep(3600)
